@@ -290,3 +290,4 @@ def run(chk, repo):
            "device loop: nested in the loop over the device's terminals it "
            "is skipped for a device without terminals, whose variables then "
            "stay private to each process")
+EXPLANATION += (' Added after wave 8: (R29.7) every normal way through DeviceVar.__set__ / ArrayGlobalVarDesc.__set__ passes a store.')
